@@ -81,11 +81,11 @@ class SumFilter:
         left = sequence_arg(left)
 
         if isinstance(key, LambdaExpression):
-            rv = sum(
-                decimal_arg(item, 0)
-                for item in key.map(context, left)
-                if not is_undefined(item)
-            )
+            # Exhaust the lambda first. Its block scope stays on the render context
+            # until the generator finishes, which must not depend on whether
+            # converting the items fails.
+            items = list(key.map(context, left))
+            rv = sum(decimal_arg(item, 0) for item in items if not is_undefined(item))
         elif key is not None and not is_undefined(key):
             rv = sum(decimal_arg(_getitem(elem, key, 0), 0) for elem in left)
         else:
